@@ -12,7 +12,8 @@ RULE = ('criteria ranges = all vectors of length <= 3 over an 11-value mixed poo
         'exactly which positions were selected) x every criterion of the grammar {n, "n", "=n", "<>n", "<n", "<=n", ">n", '
         '">=n", text, "=text", "<>text", wildcards, "", "=", "<>"} held in a cell: COUNTIF / SUMIF / AVERAGEIF / MAXIFS / '
         'MINIFS / COUNTIFS / SUMIFS / AVERAGEIFS vs a hand-written predicate; laws: one-criterion IFS == IF, criteria '
-        'pairs commute, "=x" and "<>x" partition the range, AVERAGEIFS = SUMIFS/COUNTIFS; 2 and 3 criteria pairs incl. '
+        'and a second pool of texts holding characters special to a regular-expression engine ( . + ( ) [ ] | ^ $ \\ { } ) x 32 '
+        'criteria mixing them with * and ? and <>; pairs commute, "=x" and "<>x" partition the range, AVERAGEIFS = SUMIFS/COUNTIFS; 2 and 3 criteria pairs incl. '
         'pairs that select nothing; never an exception. distinct_nontrivial = (range, criterion) cases whose range '
         'holds at least one cell of a type other than the criterion\'s.')
 ASSUMPTIONS = ['selection is judged only where the statement fixes it: logical cells, numeric text cells vs numeric criteria, '
@@ -23,7 +24,11 @@ GROUP = ('fn', 'verdict')
 POOL = [1, 2, 2.5, '2', 'apple', 'Apple', 'apples', 'b?d', '', True, None]
 POOL_SMALL = [1, 2, 'apple', 'apples', 'x', None]
 CRITERIA = [2, '2', '=2', '<>2', '<2', '<=2', '>2', '>=2', 2.5, '>1.5', '<>x', 'apple', '=apple', '<>apple', 'APPLE', 'a*',
-            '?pple', 'appl?', '*pl', '*e', 'a?ple*', '*', '', '=', '<>', '>100', '<0', 'b?d', 'x']
+            '?pple', 'appl?', '*pl', '*e', 'a?ple*', '*', '', '=', '<>', '>100', '<0', 'b?d', 'x', '=a*', '<>a*', '<>?pple', '=*e']
+# text holding characters that are special to a regular-expression engine but plain to Excel, with and without wildcards
+META_POOL = ['a.c', 'abc', 'a+c', '(x', 'x)', '[a]c', 'ac', 'A.C', 'a|c', 2, None]
+META_CRITERIA = ['a.c', '=a.c', '<>a.c', 'a.*', 'a?c', '*.c', '(*', '*)', '?)', '[a]*', 'a+*', 'a+c', '=a.c*', '<>a*', '<>?.c', '<>(*',
+                 '=a*', '<>*', '=*', '<>?', '^a*', 'a$*', 'a|*', '\\*', '{*', '*}', '*c', '<>*c', '=?x', '<>?x', '**', '?*']
 UNJ = None
 
 
@@ -43,7 +48,7 @@ def parse(crit):
         pass
     if v == '':
         return op, v, 'empty'
-    if op == '=' and ('*' in v or '?' in v):
+    if op in ('=', '<>') and ('*' in v or '?' in v):
         return op, v, 'wild'
     return op, v, 'text'
 
@@ -76,14 +81,13 @@ def matches(cell, crit):
             return UNJ
         return op == '<>' if op in ('=', '<>') else UNJ
     if kind == 'wild':
-        if isinstance(cell, str):
-            return wild_match(v, cell)
-        return False
+        m = isinstance(cell, str) and wild_match(v, cell)
+        if op == '<>' and cell is None:
+            return UNJ               # a blank cell against "<>pattern": totality only
+        return m if op == '=' else not m      # "<>pattern" is the complement of "=pattern"
     # plain text
     if op in ('=', '<>'):
         eq = isinstance(cell, str) and cell.lower() == v.lower()
-        if op == '<>' and ('*' in v or '?' in v):
-            return UNJ
         return eq if op == '=' else not eq
     if isinstance(cell, str):
         return UNJ                   # ordered comparison of text with text
@@ -123,11 +127,13 @@ def expected(fn, sel, vals):
 def work_single(job):
     k, m, maxlen = job[:3]
     full4 = len(job) > 3 and job[3]
+    meta = len(job) > 4 and job[4]
+    criteria = META_CRITERIA if meta else CRITERIA
     acc = Acc()
     ev = feval.Evaluator()
     i = 0
     for n in range(1, maxlen + 1):
-        pool = POOL if (n <= 3 or full4) else POOL_SMALL
+        pool = META_POOL if meta else POOL if (n <= 3 or full4) else POOL_SMALL
         for vec in itertools.product(pool, repeat=n):
             i += 1
             if i % m != k:
@@ -137,7 +143,7 @@ def work_single(job):
                 env, rng = env_block(vec, r, c, 1, 1)
                 env2, vrng = env_block(vals, r, c, 6, 1)
                 env.update(env2)
-                for crit in CRITERIA:
+                for crit in criteria:
                     env['K1'] = crit
                     sel = [matches(x, crit) for x in vec]
                     judged = all(s is not None for s in sel)
@@ -314,11 +320,14 @@ def run(ctx):
     m = 64
     m = 64 if not ctx.thorough else 256
     ctx.pmap(work_single, [((k + ctx.seed) % m, m, 4, ctx.thorough) for k in range(m)], timeout=12000)
+    ctx.pmap(work_single, [(k, 16, 3 if ctx.thorough else 2, False, True) for k in range(16)], timeout=6000)
     ctx.pmap(work_multi, [(k, 32) for k in range(32)], timeout=6000)
     ctx.pmap(work_cells, [(0,)], timeout=600)
     ctx.counts['traces_validated_against_impl'] = ctx.counts.get('evaluations', 0)
     ctx.extra['criteria'] = [repr(c) for c in CRITERIA]
     ctx.extra['pool'] = [repr(p) for p in POOL]
+    ctx.extra['meta_pool'] = [repr(p) for p in META_POOL]
+    ctx.extra['meta_criteria'] = [repr(c) for c in META_CRITERIA]
 
 
 def replay(case):
